@@ -454,6 +454,17 @@ class NDArray:
     def _mixed_bool_index(self, idx):
         # a[:, :, mask]  -> selection along one axis, other axes full slices
         pos = [k for k, i in enumerate(idx) if isinstance(i, NDArray)]
+        if len(pos) == 1 and all(isinstance(i, slice) for k, i in enumerate(idx) if k != pos[0]) \
+                and not all(i == slice(None) for k, i in enumerate(idx) if k != pos[0]):
+            # a[mask, :n]: one 1-d mask and basic slices commute (numpy: a single advanced index stays in place) -- first the mask with full
+            # slices, then the slices on the result
+            full = tuple(i if k == pos[0] else slice(None) for k, i in enumerate(idx))
+            rest = tuple(slice(None) if k == pos[0] else i for k, i in enumerate(idx))
+            first = self._mixed_bool_index(full)
+            res = first._getitem(rest)
+            if getattr(res, 'selection', None) is None:
+                res.selection = first.selection
+            return res
         if len(pos) != 1 or not all(isinstance(i, slice) and i == slice(None) for k, i in enumerate(idx) if k != pos[0]):
             raise Unsupported('mixed boolean index pattern')
         p = pos[0]
@@ -681,6 +692,30 @@ class NDArray:
                 return s_and(*[s_eq(a, b) for a, b in zip(i, tgt)])
             if isinstance(value, NDArray):
                 raise Unsupported('array stored in a single element')
+            return region, (lambda i: value)
+        if len(idx) == 1 and isinstance(idx[0], slice) and self.ndim >= 1 and (idx[0].step is None or idx[0].step == 1):
+            # NP-SLICE-STORE: a[lo:hi] = value along the first axis (unit step): a scalar fills the block; an array of the same length is
+            # copied element by element (ValueError when the lengths differ and the value is not a single row)
+            used('NP-SLICE-STORE')
+            st, _step, ln = slice_params(idx[0], self.shape[0])
+
+            def region(i):
+                return mk_bool(z3.And(zint(i[0]) >= zint(st), zint(i[0]) < zint(st) + zint(ln)))
+            if isinstance(value, NDArray) and value.ndim >= 1:
+                if value.ndim != self.ndim:
+                    raise Unsupported('slice store of an array of another rank')
+                vlen = value.shape[0]
+                if not same(vlen, ln) and not known_true(s_eq(vlen, ln)):
+                    c = core.ctx()
+                    if c.branch(z3.Not(zbool(s_eq(vlen, ln)))):
+                        if c.branch(zbool(s_eq(vlen, 1))):
+                            src1 = value.frozen()
+                            return region, (lambda i: src1.fn((0,) + tuple(i[1:])))
+                        raise_(ValueError, 'could not broadcast input array into the shape of the slice')
+                src = value.frozen()
+                return region, (lambda i: src.fn((i[0] - st,) + tuple(i[1:])))
+            if isinstance(value, NDArray):
+                value = value.fn(())
             return region, (lambda i: value)
         raise Unsupported(f'store pattern {idx!r}')
 
@@ -1710,6 +1745,19 @@ def diff(a, n=1, axis=-1, prepend=None, append=None):
     return NDArray((length,), lambda i: b(mk_int(zint(i[0]) + 1)) - b(i[0]), a.dtype if a.dtype.kind != 'b' else INT64)
 
 
+def isin(element, test_elements, **kw):
+    """NP-ISIN: element-wise membership in a vector given by its membership predicate (a unique / index array) or by its entries"""
+    used('NP-ISIN')
+    if kw:
+        raise Unsupported(f'numpy.isin options {sorted(kw)}')
+    a = asarray(element).frozen()
+    t = asarray(test_elements)
+    if t.ndim != 1:
+        raise Unsupported('numpy.isin with test elements that are not a vector')
+    mem = membership(t)
+    return NDArray(a.shape, lambda i: truthy(mem(a.fn(i))), BOOL)
+
+
 def nonzero(a):
     """numpy.nonzero of a vector: a 1-tuple holding flatnonzero(a)"""
     a = asarray(a)
@@ -2464,6 +2512,7 @@ class NumpyModule:
     sum = staticmethod(np_sum)
     nonzero = staticmethod(nonzero)
     diff = staticmethod(diff)
+    isin = staticmethod(isin)
     flatnonzero = staticmethod(flatnonzero)
     sort = staticmethod(np_sort_any)
     unique = staticmethod(np_unique)
